@@ -1,7 +1,7 @@
 (** C15 part B — lemmas about scan_complete and update_chain_tip on a canonical queue. *)
 From V.Lib Require Import Base.
 From V.Gen Require Import C15Tables.
-From V.C15 Require Import Model Spec Sem QModel Proofs ProofsTree ProofsVec ProofsSeq ProofsCanon QProofs.
+From V.C15 Require Import Model Spec Sem QModel QSpec Proofs ProofsTree ProofsVec ProofsSeq ProofsCanon QProofs.
 From Coq Require Import ZifyBool.
 Local Open Scope Z_scope.
 
@@ -304,6 +304,107 @@ Proof.
         eexists; split; [reflexivity|]. cbn [rs re rp app]. split; [lia|]. exists [], (R a chain_end Ignored).
         repeat match goal with |- _ /\ _ => split | |- Forall _ _ => constructor end;
           unfold valid, within; cbn [rs re rp]; try lia; try congruence; try reflexivity; try discriminate.
+Qed.
+
+Lemma from_parts_ok s e p : s <= e -> of_opt (from_parts s e p) = Ok (R s e p).
+Proof. intros L. unfold from_parts. rewrite Z.geb_leb. destruct (Z.leb_spec s e); [reflexivity|lia]. Qed.
+
+(** the plan's last entry is the Verify range exactly when the documented rule asks for one *)
+Lemma tip_plan_verify c t : ctx_ok c t ->
+  exists p, tip_plan c t = Ok p /\
+    match p with
+    | None => expected_verify c t = None
+    | Some (_, _, entries) =>
+        exists es l, entries = es ++ [l] /\
+          (rp l = Verify -> expected_verify c t = Some (rs l, re l)) /\
+          (rp l <> Verify -> expected_verify c t = None)
+    end.
+Proof.
+  intros (Ut & Ua & Um & Ub). unfold tip_plan, expected_verify, shard_tip_below, is_u32, u32_max in *.
+  destruct (sapling_act c) as [a|]; [|exists None; split; [reflexivity|destruct (max_scanned c); reflexivity]].
+  specialize (Ua a eq_refl).
+  destruct (Z.leb_spec a t); cbn [negb andb]; [|exists None; split; [reflexivity|destruct (max_scanned c); reflexivity]].
+  assert (CE : hadd t 1 = t + 1) by (unfold hadd, u32_max; lia). rewrite CE.
+  set (mst := omin_list [tip_shard_end_height (sapling_shards c); tip_shard_end_height (orchard_shards c);
+                         tip_shard_end_height (ironwood_shards c)]).
+  destruct (max_scanned c) as [ms|] eqn:Ems.
+  - specialize (Um ms eq_refl). destruct (Z.ltb_spec t ms).
+    { exists None. split; [reflexivity|]. destruct (Z.leb_spec ms (Z.max (t - PRUNING_DEPTH) 0)); [unfold PRUNING_DEPTH in *; lia|reflexivity]. }
+    assert (HS : hsub t PRUNING_DEPTH = Z.max (t - PRUNING_DEPTH) 0) by reflexivity.
+    assert (MU : hadd ms 1 = ms + 1) by (unfold hadd, u32_max; lia).
+    assert (BT : exists bt, (match birthday c with Some b => t <? b | None => false end) = bt /\
+                            (match birthday c with Some b => b <=? t | None => true end) = negb bt /\
+                            (bt = false -> match birthday c with Some b => 0 <= b <= t | None => True end)).
+    { destruct (birthday c) as [b|]; [|exists false; auto]. pose proof (Ub b eq_refl). exists (t <? b).
+      split; [reflexivity|]. split; [lia|]. intros. lia. }
+    destruct BT as (bt & B1 & B2 & B3). cbv zeta. rewrite ?MU. rewrite B1, B2. destruct bt; cbn [negb].
+    { exists None. split; [reflexivity|]. rewrite andb_false_r. reflexivity. }
+    specialize (B3 eq_refl). rewrite andb_true_r.
+    destruct mst as [h|] eqn:Emst; [destruct (Z.ltb_spec h (t + 1))|]; cbn [bind].
+    + (* shard entry *)
+      set (mts := match birthday c with Some b => if b >? h then b else h | None => h end).
+      assert (Lm : mts <= t + 1) by (unfold mts; destruct (birthday c) as [b|]; [destruct (b >? h)|]; lia).
+      rewrite (from_parts_ok mts (t + 1) ChainTip Lm). cbn [bind]. rewrite Z.gtb_ltb, HS.
+      destruct (Z.ltb_spec (Z.max (t - PRUNING_DEPTH) 0) ms) as [Gt|Le].
+      * rewrite (from_parts_ok (ms + 1) (t + 1) ChainTip) by lia. cbn [bind]. eexists; split; [reflexivity|].
+        exists [R mts (t + 1) ChainTip], (R (ms + 1) (t + 1) ChainTip). split; [reflexivity|]. cbn [rp]. split; [discriminate|].
+        intros _. destruct (Z.leb_spec ms (Z.max (t - PRUNING_DEPTH) 0)); [lia|reflexivity].
+      * assert (HV : Z.min (hadd (Z.max (t - PRUNING_DEPTH) 0) 1) (hadd (ms + 1) VERIFY_LOOKAHEAD)
+                     = Z.min (Z.max (t - PRUNING_DEPTH) 0 + 1) (ms + 1 + VERIFY_LOOKAHEAD)).
+        { unfold hadd, u32_max, PRUNING_DEPTH, VERIFY_LOOKAHEAD in *. lia. }
+        rewrite HV. rewrite (from_parts_ok (ms + 1) _ Verify) by (unfold VERIFY_LOOKAHEAD; lia). cbn [bind].
+        eexists; split; [reflexivity|]. eexists [R mts (t + 1) ChainTip], _. split; [reflexivity|]. cbn [rs re rp].
+        split; [|intros V; exfalso; apply V; reflexivity]. intros _.
+        destruct (Z.leb_spec ms (Z.max (t - PRUNING_DEPTH) 0)); [|lia]. cbn [andb]. reflexivity.
+    + rewrite (from_parts_ok (ms + 1) (t + 1) Historic) by lia. cbn [bind]. eexists; split; [reflexivity|].
+      exists [], (R (ms + 1) (t + 1) Historic). split; [reflexivity|]. cbn [rp]. split; [discriminate|]. intros _.
+      rewrite andb_false_r. reflexivity.
+    + rewrite (from_parts_ok (ms + 1) (t + 1) Historic) by lia. cbn [bind]. eexists; split; [reflexivity|].
+      exists [], (R (ms + 1) (t + 1) Historic). split; [reflexivity|]. cbn [rp]. split; [discriminate|]. intros _.
+      rewrite andb_false_r. reflexivity.
+  - (* nothing scanned: never Verify, nothing expected *)
+    destruct (birthday c) as [b|] eqn:Eb.
+    + pose proof (Ub b eq_refl). destruct (Z.ltb_spec t b); [exists None; auto|].
+      destruct mst as [h|]; [destruct (Z.ltb_spec h (t + 1))|]; cbn [bind].
+      * set (mts := if b >? h then b else h). assert (Lm : mts <= t + 1) by (unfold mts; destruct (b >? h); lia).
+        rewrite (from_parts_ok mts (t + 1) ChainTip Lm). cbn [bind]. rewrite (from_parts_ok b (t + 1) Historic) by lia. cbn [bind].
+        eexists; split; [reflexivity|]. eexists [_], _. split; [reflexivity|]. cbn [rp]. split; [discriminate|reflexivity].
+      * rewrite (from_parts_ok b (t + 1) Historic) by lia. cbn [bind].
+        eexists; split; [reflexivity|]. eexists [], _. split; [reflexivity|]. cbn [rp]. split; [discriminate|reflexivity].
+      * rewrite (from_parts_ok b (t + 1) Historic) by lia. cbn [bind].
+        eexists; split; [reflexivity|]. eexists [], _. split; [reflexivity|]. cbn [rp]. split; [discriminate|reflexivity].
+    + destruct mst as [h|]; [destruct (Z.ltb_spec h (t + 1))|]; cbn [bind].
+      * rewrite (from_parts_ok h (t + 1) ChainTip) by lia. cbn [bind]. rewrite (from_parts_ok a (t + 1) Ignored) by lia. cbn [bind].
+        eexists; split; [reflexivity|]. eexists [_], _. split; [reflexivity|]. cbn [rp]. split; [discriminate|reflexivity].
+      * rewrite (from_parts_ok a (t + 1) Ignored) by lia. cbn [bind].
+        eexists; split; [reflexivity|]. eexists [], _. split; [reflexivity|]. cbn [rp]. split; [discriminate|reflexivity].
+      * rewrite (from_parts_ok a (t + 1) Ignored) by lia. cbn [bind].
+        eexists; split; [reflexivity|]. eexists [], _. split; [reflexivity|]. cbn [rp]. split; [discriminate|reflexivity].
+Qed.
+
+(** which heights are Verify after an insertion *)
+Lemma ins_verify_other st s e p f h : p <> Verify -> p <> Scanned ->
+  (pm (ins_spec st s e p f) h = Some Verify <-> pm st h = Some Verify).
+Proof.
+  intros N1 N2. cbn [ins_spec pm]. destruct (in_range s e h).
+  - destruct (pm st h) as [c|]; [destruct c, p, f; cbn; split; congruence|split; [intros [= E]; congruence|discriminate]].
+  - destruct (pm st h) as [c|]; [tauto|]. destruct (in_range (Z.min (lo st) s) (Z.max (hi st) e) h); split; discriminate.
+Qed.
+Lemma ins_verify_verify st s e f h :
+  (pm (ins_spec st s e Verify f) h = Some Verify <-> in_range s e h = true \/ pm st h = Some Verify).
+Proof.
+  cbn [ins_spec pm]. destruct (in_range s e h).
+  - destruct (pm st h) as [c|]; [destruct c, f; cbn; split; auto|split; auto].
+  - destruct (pm st h) as [c|]; [split; [auto|intros [?|?]; [discriminate|assumption]]|].
+    destruct (in_range (Z.min (lo st) s) (Z.max (hi st) e) h); split; try discriminate; intros [?|?]; discriminate.
+Qed.
+Lemma fold_verify_other ops : forall st h,
+  (forall o, In o ops -> snd (fst o) <> Verify /\ snd (fst o) <> Scanned) ->
+  (pm (fold_spec st ops) h = Some Verify <-> pm st h = Some Verify).
+Proof.
+  induction ops as [|[[[s e] p] f] ops IH]; intros st h H; [reflexivity|]. cbn [fold_spec].
+  destruct (H _ (or_introl eq_refl)) as (N1 & N2). cbn [fst snd] in *.
+  rewrite IH by (intros; apply H; right; assumption). apply ins_verify_other; assumption.
 Qed.
 
 (** outside the inserted range the Scanned heights are untouched *)
